@@ -49,6 +49,21 @@ from werkzeug.exceptions import NotFound
 
 common.assert_tree()
 
+# Failures on the unchanged tree (text of bounded/FINDINGS_C14.md; kept here too so that it travels with the check)
+FINDINGS = """
+sdm_pkg_exception@nul - SharedDataMiddleware package loader raises on a NUL in the request path.
+  input    : SharedDataMiddleware(app, {"/pkg": (<package>, "static")}); GET /pkg/%00 (also /pkg/a%00b, /pkg/%00.., ...),
+             i.e. PATH_INFO "/pkg/\\x00".  Inside the domain (NUL-containing segment, end-to-end through
+             SharedDataMiddleware.get_package_loader, path percent-decoded once).
+  observed : ValueError('embedded null byte') escapes from __call__ (loader only catches OSError around
+             reader.open_resource); the directory loader and send_from_directory answer 404 for the same path.
+  expected : 404 / fall through to the wrapped application ("refuses (None, i.e. a 404)") or the file under the root.
+  judgement: not a disclosure (safe_join returns the contained 'static/\\x00', nothing is served); violates only the
+             "a refusal is a 404" half of the statement; overlaps with C07.  Repair: except (OSError, ValueError).
+  '@nul' = the decoded request path has a NUL (class of the input), so other exceptions keep the bare name.
+Everything else (containment, wrong file, non-vacuity companions, secure_filename clauses and model) is green.
+"""
+
 RULE = ("safe_join result is None or stays (component-wise, after independent normalisation) under the base and "
         "equals the plain join; send_from_directory / SharedDataMiddleware answer 404 or serve exactly the file the "
         "request names under the root (file content = its own path; sentinels outside the root); secure_filename "
